@@ -608,6 +608,26 @@ def v_reward_with_top_bit_amount(world, pid, rng):
     return world.mine(blk, fix_merkle=True), {"reward"}, set()
 
 
+def v_output_spent_by_two_transactions(world, pid, rng):
+    """value created by spending one output twice inside a block: two different, correctly signed transactions on the same
+    output (sometimes the very same transaction listed twice), the reward claiming the fees of both"""
+    own = pick_own(world, pid, rng)
+    if not own:
+        return None
+    (r, v, k) = own[0]
+    t1 = sign_each(world, unsigned_tx([r], [(max(1, v // 2), rng.choice(world.keys)[1])]), [k], rng)
+    t2 = sign_each(world, unsigned_tx([r], [(max(1, v // 3), rng.choice(world.keys)[1])]), [k], rng)
+    txs = [t1, t1] if rng.random() < 0.25 else [t1, t2]
+    extra = world.make_rtx(pid, rng, exclude={r})
+    if extra is not None:
+        txs.insert(rng.randrange(3), extra)
+    led = world.ledger(pid)
+    fees = sum(ref.tx_fee(t, led) for t in txs)
+    parent = world.chain.blocks[pid]
+    reward = ref.subsidy(parent.height + 1) + rng.choice([0, fees])
+    return finish(world, pid, txs, rng, reward=reward), {"dup-ref-block"}, {"dup-tx", "reward"}
+
+
 C02_CLASSES = {
     "reward-exactly-at-bound": v_reward_exact, "reward-below-bound": v_reward_below, "reward-plus-one": v_reward_plus_one,
     "reward-claims-fee-of-absent-transaction": v_reward_claims_absent_fee,
@@ -618,6 +638,7 @@ C02_CLASSES = {
     "reward-two-null-inputs": v_reward_two_null_inputs, "reward-references-real-output": v_reward_references_real_output,
     "reward-without-coinbase-data": v_reward_without_coinbase_data, "reward-split-outputs": v_reward_split_outputs,
     "valid-spend": c_valid_spend, "valid-multi": c_valid_multi, "reward-with-top-bit-amount": v_reward_with_top_bit_amount,
+    "output-spent-by-two-transactions": v_output_spent_by_two_transactions,
 }
 
 
